@@ -138,8 +138,11 @@ Proof.
     + unfold ix_declared; cbn. unfold check_schema in C.
       destruct (id_hash d) as [[|c0 hk]|]; try discriminate.
       destruct (mem (c0 :: hk) (t_defs t0)) eqn:M; [|discriminate].
-      destruct (id_range d) as [[|c1 rk]|]; inversion C; subst; auto.
-      destruct (mem (c1 :: rk) (t_defs t0)) eqn:M2; inversion C; subst; auto.
+      destruct (id_range d) as [[|c1 rk]|].
+      * destruct (key_typed _ _); inversion C; subst; auto.
+      * destruct (mem (c1 :: rk) (t_defs t0)) eqn:M2; [|discriminate].
+        destruct (key_typed _ _ && key_typed _ _); inversion C; subst; auto.
+      * destruct (key_typed _ _); inversion C; subst; auto.
   - (* attribute definitions change compatibly *)
     intros t0 defs [HT HI] Hs. split; [exact HT|].
     cbn [t_indexes t_defs t_data]. intros n ix Hin.
